@@ -23,12 +23,15 @@
 (* Deviation DOUBLE_COUNT (D5): the real connection counts a written query *)
 (* twice when it decides about a reservation.  Deviation DONE_EARLY: the   *)
 (* early caller's wg.Done() precedes its re-reservation, a late caller can *)
-(* take its slot.                                                          *)
+(* take its slot.  C08 part: ConnDie / DieRetry (a dead connection admits  *)
+(* nothing, a query that failed on a reused connection is retried          *)
+(* elsewhere); deviation DEAD_ADMITS.                                      *)
 (***************************************************************************)
 EXTENDS Integers, FiniteSets, Sequences, TLC
 
 CONSTANTS Callers, Slots, QLimits, CLimits, MaxCalls, MaxDialFail, DOUBLE_COUNT,
-          DONE_EARLY   \* deviation: an early caller signals earlyReserveCallWg.Done() BEFORE it re-reserves
+          DONE_EARLY,  \* deviation: an early caller signals earlyReserveCallWg.Done() BEFORE it re-reserves
+          DEAD_ADMITS  \* deviation (C08): a connection whose close has begun still hands out reservations
 
 VARIABLES qlim, clim,
           cst,      \* slot -> "none" | "new" (dial goroutine not yet in the dial func) | "dialing" |
@@ -75,7 +78,7 @@ AttachEarly(c, s) ==
     /\ UNCHANGED <<qlim, clim, cst, name, inuse, res, tries, calls, replied, ndialfail, spurious>>
 
 AttachReady(c, s) ==
-    /\ pc[c] = "calling" /\ cst[s] = "ready" /\ early[s] = {} /\ Counted(s) < clim
+    /\ pc[c] = "calling" /\ (cst[s] = "ready" \/ (DEAD_ADMITS /\ cst[s] = "dead")) /\ early[s] = {} /\ Counted(s) < clim
     /\ inuse' = [inuse EXCEPT ![s] = @ \cup {c}]
     /\ pc' = [pc EXCEPT ![c] = "admitted"] /\ at' = [at EXCEPT ![c] = s] /\ creator' = [creator EXCEPT ![c] = FALSE]
     /\ UNCHANGED <<qlim, clim, cst, name, early, res, tries, calls, replied, ndialfail, spurious>>
@@ -146,6 +149,26 @@ EarlyFail(c) ==
     /\ EndOrRetry(c, "dial")
     /\ UNCHANGED <<qlim, clim, cst, name, inuse, at, calls, creator, replied, ndialfail, spurious>>
 
+\* C08: the established connection dies (peer closes / read error): from the instant its close begins (`closed` is
+\* set before anything can block) it admits nothing; the transport drops it and dials instead.  (ndialfail is the
+\* common fault budget of the model.)
+ConnDie(s) ==
+    /\ cst[s] = "ready" /\ ndialfail < MaxDialFail
+    /\ cst' = [cst EXCEPT ![s] = "dead"] /\ ndialfail' = ndialfail + 1
+    /\ UNCHANGED <<qlim, clim, name, early, inuse, pc, at, res, tries, calls, creator, replied, spurious>>
+
+\* a query on the dead connection fails there.  C08: if the connection was a reused one (not created for this call)
+\* the query is retried (at least once, at most 3 times) — on a connection that can take it, never the dead one;
+\* a failure is reported only for a fresh connection or after a retry.
+DieRetry(c) ==
+    /\ pc[c] \in {"admitted", "written"} /\ cst[at[c]] = "dead"
+    /\ inuse' = [inuse EXCEPT ![at[c]] = @ \ {c}] /\ replied' = replied \ {c}
+    /\ \/ /\ tries[c] < 3 /\ ~creator[c]
+          /\ pc' = [pc EXCEPT ![c] = "calling"] /\ tries' = [tries EXCEPT ![c] = @ + 1] /\ UNCHANGED res
+       \/ /\ creator[c] \/ tries[c] >= 1
+          /\ pc' = [pc EXCEPT ![c] = "done"] /\ res' = [res EXCEPT ![c] = "other"] /\ UNCHANGED tries
+    /\ UNCHANGED <<qlim, clim, cst, name, early, at, calls, creator, ndialfail, spurious>>
+
 Write(c) ==
     /\ pc[c] = "admitted" /\ pc' = [pc EXCEPT ![c] = "written"]
     /\ UNCHANGED <<qlim, clim, cst, name, early, inuse, at, res, tries, calls, creator, replied, ndialfail, spurious>>
@@ -174,9 +197,9 @@ Return(c) ==
 
 Next ==
     \/ \E c \in Callers : Call(c) \/ EarlyDone(c) \/ EarlyAdmit(c) \/ EarlyRefuse(c) \/ EarlyFail(c) \/ Write(c) \/ Reply(c)
-                          \/ Finish(c) \/ Release(c) \/ Return(c)
+                          \/ Finish(c) \/ Release(c) \/ Return(c) \/ DieRetry(c)
     \/ \E c \in Callers, s \in Slots : AttachEarly(c, s) \/ AttachReady(c, s) \/ AttachNew(c, s)
-    \/ \E s \in Slots : DialStart(s, s) \/ DialOk(s) \/ DialFail(s) \/ DialPublish(s)
+    \/ \E s \in Slots : DialStart(s, s) \/ DialOk(s) \/ DialFail(s) \/ DialPublish(s) \/ ConnDie(s)
 
 Spec == Init /\ [][Next]_vars
 
@@ -192,6 +215,10 @@ NoSpuriousRefusal == ~spurious
 NoRefusalIfEqual == clim >= qlim => \A c \in Callers : res[c] # "refused"
 Quiet == \A c \in Callers : pc[c] \in {"idle", "done", "calling"}
 QuietFree == Quiet => \A s \in Slots : inuse[s] = {} /\ early[s] = {}
+
+\* C08 (meaningful with a fault budget of 1): a single connection death does not make a query on a reused
+\* connection fail — it is retried elsewhere and succeeds (clim >= qlim: no refusal has used up a retry)
+SingleFaultSurvives == (MaxDialFail = 1 /\ clim >= qlim) => \A c \in Callers : res[c] = "other" => creator[c]
 
 LazyInv == ConnLimit /\ ExactConn /\ EarlyLimit /\ NoSpuriousRefusal /\ QuietFree
 =============================================================================
